@@ -34,11 +34,17 @@ def gen_filter(rng):
 import re
 def model_case(case):
     """`wc t c i` (an emission inside a future carrying collector c, polled on thread t) is `sd t c ; em t i ; pd t` to the model"""
+    # a `&'static` collector (Dispatch::from_static) is a collector that lives for ever: dropping the program's handle to it
+    # changes nothing (to the model: the handle is never dropped)
+    static_ids = set(re.findall(r'\bncs (\d+)', case))
+    if static_ids:
+        case = ' ; '.join(op for op in case.split(' ; ') if not (op.split()[:1] == ['dh'] and op.split()[1] in static_ids))
+    case = re.sub(r'\bncs (\d+)', r'nc \1', case)
     return re.sub(r'wc (\d+) (\d+) (\d+)', r'sd \1 \2 ; em \1 \3 ; pd \1', case)
 
 def gen_history(rng, nops, style='cache', static=5):
     ops = ['static=%d' % static]
-    handles = set(); created = 0; nthreads = 1
+    handles = set(); created = 0; nthreads = 1; statics = set()
     depth = {0: 0}
     global_set = False
     def emit_some(k):
@@ -54,9 +60,12 @@ def gen_history(rng, nops, style='cache', static=5):
             # (style 'scope' = C02: which collector an emission goes to; its collectors accept everything, so that the
             #  verdict does not depend on filtering and caching, which are C01's subject)
             st, dy, h = gen_filter(rng) if style != 'scope' else ('a' * NCS, '1' * NCS, '-')
-            ops.append('nc %d %s %s %s' % (created, st, dy, h)); handles.add(created)
+            kindw = 'ncs' if (style == 'scope' and rng.random() < 0.3) else 'nc'
+            if kindw == 'ncs': statics.add(created)
+            ops.append('%s %d %s %s %s' % (kindw, created, st, dy, h)); handles.add(created)
         elif r < 0.14 and handles:
-            c = rng.choice(sorted(handles)); handles.discard(c); ops.append('dh %d' % c)
+            c = rng.choice(sorted(handles))
+            if c not in statics: handles.discard(c); ops.append('dh %d' % c)      # (the handle to a `&'static` collector is kept)
         elif style == 'scope' and handles and rng.random() < 0.08:
             # a scope in its third form: a future carrying its own collector, polled on some thread
             ops.append('wc %d %d %d' % (rng.randrange(nthreads), rng.choice(sorted(handles)), rng.randrange(NCS)))
